@@ -45,8 +45,19 @@ func ZZ_C07_PublishRetain() {
 	}
 	zzrt.Observe("viaalias", viaAlias)
 	zzrt.Observe("plen", plen)
-	err := c.publishHandler(pub)
-	zzrt.Assert(err == nil, "publish-accepted")
+	// the same message may also be published by the broker itself as a will
+	viaWill := !viaAlias && zzrt.Choice(2) == 1
+	zzrt.Observe("viawill", viaWill)
+	if viaWill {
+		srv.subscriptionsDB = submem.NewStore()
+		srv.mu.Lock()
+		srv.sendWillLocked(&gmqtt.Message{Topic: topic, Retained: retain, Payload: payload}, "c1")
+		srv.mu.Unlock()
+		zzrt.Cover("will")
+	} else {
+		err := c.publishHandler(pub)
+		zzrt.Assert(err == nil, "publish-accepted")
+	}
 	for _, t := range zzC07Topics {
 		got := srv.retainedDB.GetRetainedMessage(t)
 		switch {
